@@ -11,7 +11,7 @@
    The word boundary (last word with or without padding, position in the last word or before) is a
    case split inside the proofs, never a sample. *)
 From Tetl Require Import Lib.Base C17.Ops C17.Model C17.Spec C17.Words C17.Abs C17.Observers C17.Ctors
-  C17.History C17.Extras C17.NonVac C17.Zero.
+  C17.History C17.Extras C17.NonVac C17.Zero C17.SpecLaws C17.CodeLaws.
 From Coq Require Import NArith.
 Local Open Scope nat_scope.
 
@@ -128,6 +128,35 @@ Theorem C17_zero_width : forall k ops,
                end.
 Proof. exact zero_width_refines. Qed.
 Print Assumptions C17_zero_width.
+
+(* spec validation: Spec.v is hand-written and trusted as "what the standard says"; the relations the standard
+   itself states between the members are proved of it for EVERY value: all() = (count() == size()),
+   any() = (count() != 0), none() = (count() == 0), count() <= size(), flip() twice is the identity and keeps
+   size(), (~x).count() = size() - x.count(), == is equality of values, to_string has size() characters,
+   bitset(x.to_ullong()) = x whenever size() <= 64 *)
+Theorem C17_spec_laws : forall a : bset,
+  s_all a = (s_count a =? length a)
+  /\ s_any a = negb (s_count a =? 0)
+  /\ s_none a = (s_count a =? 0)
+  /\ s_count a <= length a
+  /\ s_flip_all (s_flip_all a) = a
+  /\ length (s_flip_all a) = length a
+  /\ s_count (s_flip_all a) = length a - s_count a
+  /\ (forall b, s_eq a b = true <-> a = b)
+  /\ (forall zero one, length (s_to_string a zero one) = length a)
+  /\ (length a <= 64 -> s_of_ullong (length a) (s_value a) = a).
+Proof. exact spec_laws. Qed.
+Print Assumptions C17_spec_laws.
+
+(* the same relations on the code's word-level observers, for every width, word size and well-formed array
+   (by C17_padding_zero_inv: after every history) *)
+Theorem C17_code_laws : forall bits k, 0 < bits -> forall ws, wf bits k ws ->
+  all_m bits (2 ^ k) (ones (2 ^ k)) (padding_mask_inv bits (2 ^ k)) ws = (count_m ws =? bits)
+  /\ any_m ws = negb (count_m ws =? 0)
+  /\ none_m ws = (count_m ws =? 0)
+  /\ count_m ws <= bits.
+Proof. exact code_laws. Qed.
+Print Assumptions C17_code_laws.
 
 (* non-vacuity: the hypotheses are satisfiable and the conclusions non-trivial at widths one below
    a word multiple, at it and above it: concrete histories (string constructor "1000001" resp. 2^63+1,
